@@ -19,7 +19,7 @@ from harness.core import esc, frac
 
 TRUSTED = [
     "Lean 4.33 kernel; axioms audited (subset of propext, Classical.choice, Quot.sound)",
-    "the exact optimum is taken to be max_S confined(S)/|S| as the property defines it (LP duality is not proved)",
+    "the exact optimum max_S confined(S)/|S| is proved to be the minimum over all fractional assignment matrices (Props/C02Duality: optimum_eq_lowerBound; Mathlib's Hall theorem)",
     "harness/props/c02.py: family enumeration, multiprocessing fan-out, comparison with 1e-9 tolerance",
     "the 0.15 clause and 'optimised <= uniform' are decided by executing the real code on the enumerated family / "
     "generated kernels, not by a theorem (Props/C02.lean states what is proved)",
@@ -116,8 +116,8 @@ def _bottlenecks(kernel_idx):
 
 def run(ctx):
     ctx.assumptions = TRUSTED
-    ctx.prove(["Consts"], ["OsacaVerif.Props.C02"])
-    ctx.thorough_recheck(["OsacaVerif.Props.C02"])
+    ctx.prove(["Consts"], ["OsacaVerif.Props.C02", "OsacaVerif.Props.C02Duality"])
+    ctx.thorough_recheck(["OsacaVerif.Props.C02", "OsacaVerif.Props.C02Duality"])
     ctx.env = core.Env("C02", archs=[])
     ctx.env.activate()
     import warnings
